@@ -8,7 +8,8 @@
     the grid, one block per trial in which it has a level; its Derivation is
     the complex variant); every factor outside act_design (an implied derived
     factor: no variables, no Derivation constraints) a derived factor of
-    simple / WithinTrial act_design factors with any such window, exactly one
+    simple / WithinTrial act_design factors with any window (also one that is
+    not yet full in the first trials and then reads empty cells), exactly one
     of whose levels accepts every argument tuple; any positive sustain counts
     (Nest / Repeat, with the Sustain constraint) on the simple / WithinTrial
     factors of act_design, a WithinTrial factor sustained no longer than the
@@ -22,7 +23,9 @@
     any sustain of the geometry, the pinned trials inside the block) /
     Sequential (a factor without a complex window, its preamble a whole
     number of its sustain groups); combinations
-    left out of a crossing by Exclude constraints or by a crossed derived
+    left out of a crossing by Exclude constraints (on a basic level, or on a
+    level of a WithinTrial factor of act_design, expanded into the
+    combinations of basic levels that make it true) or by a crossed derived
     level no compatible arguments satisfy)
     every model of the formula the samplers hand to the solver
     ([full_cnf] = [combine_cnf_with_requests] of the compiled request) is, on
